@@ -1,7 +1,7 @@
 //! G5: Difficulty settings (mods in several representations, clock rate, overrides).
 
 use rosu_mods::{
-    generated_mods::{HoldOffMania, InvertMania, RandomMania, RandomTaiko},
+    generated_mods::{DifficultyAdjustTaiko, HoldOffMania, InvertMania, MirrorCatch, MirrorOsu, RandomMania, RandomTaiko},
     GameMod, GameMods as GameModsLazer, GameModsIntermode, GameModsLegacy,
 };
 use rosu_pp::Difficulty;
@@ -39,7 +39,9 @@ pub struct Settings {
     /// 0 = legacy bits, 1 = GameModsLegacy, 2 = intermode owned, 3 = intermode borrowed, 4 = lazer
     pub repr: u8,
     /// extras that legacy bits cannot express: bit0 HoldOff, bit1 Invert, bit2 Random(seed) (mania/taiko,
-    /// lazer representation), bit3 Classic (intermode and lazer representations)
+    /// lazer representation), bit3 Classic, bit4 Blinds, bit5 Traceable (intermode and lazer
+    /// representations), bit6 Mirror with a reflection setting (osu!, catch; lazer), bit7 taiko
+    /// DifficultyAdjust scroll speed (lazer)
     pub lazer_extra: u8,
     pub seed: i32,
     pub mode: u8,
@@ -59,6 +61,12 @@ impl Settings {
         if self.lazer_extra & 8 != 0 {
             inter.insert(rosu_mods::GameModIntermode::Classic);
         }
+        if self.lazer_extra & 16 != 0 && self.mode == 0 {
+            inter.insert(rosu_mods::GameModIntermode::Blinds);
+        }
+        if self.lazer_extra & 32 != 0 && self.mode == 0 {
+            inter.insert(rosu_mods::GameModIntermode::Traceable);
+        }
         inter
     }
 
@@ -76,6 +84,26 @@ impl Settings {
         }
         if self.lazer_extra & 2 != 0 && self.mode == 3 {
             mods.insert(GameMod::InvertMania(InvertMania {}));
+        }
+        if self.lazer_extra & 64 != 0 {
+            match self.mode {
+                0 => mods.insert(GameMod::MirrorOsu(MirrorOsu {
+                    reflection: match self.seed.rem_euclid(4) {
+                        0 => None,
+                        1 => Some("1".to_string()),
+                        2 => Some("2".to_string()),
+                        _ => Some("0".to_string()),
+                    },
+                })),
+                2 => mods.insert(GameMod::MirrorCatch(MirrorCatch {})),
+                _ => {}
+            }
+        }
+        if self.lazer_extra & 128 != 0 && self.mode == 1 {
+            mods.insert(GameMod::DifficultyAdjustTaiko(DifficultyAdjustTaiko {
+                scroll_speed: Some(0.5 + f64::from(self.seed.rem_euclid(6)) * 0.5),
+                ..Default::default()
+            }));
         }
         if self.lazer_extra & 4 != 0 {
             match self.mode {
@@ -222,6 +250,18 @@ pub fn gen_settings(rng: &mut Rng, mode: u8) -> Settings {
     // the Classic mod exists only outside the legacy bits
     if repr >= 2 && rng.chance(1, 4) {
         lazer_extra |= 8;
+    }
+    if repr >= 2 && mode == 0 && rng.chance(1, 5) {
+        lazer_extra |= 16;
+    }
+    if repr >= 2 && mode == 0 && rng.chance(1, 5) {
+        lazer_extra |= 32;
+    }
+    if repr == 4 && (mode == 0 || mode == 2) && rng.chance(1, 3) {
+        lazer_extra |= 64;
+    }
+    if repr == 4 && mode == 1 && rng.chance(1, 3) {
+        lazer_extra |= 128;
     }
     Settings {
         bits,
